@@ -99,12 +99,21 @@ func c19NewVol(symTime int) *c19Vol {
 // c19OthersUntouched: the directory inode, the root directory data and every byte of f's inode outside the
 // given field ranges (and the checksum fields 0x7c-0x7d, 0x82-0x83) still have their initial values.
 func c19OthersUntouched(v *c19Vol, changed [][2]int) {
+	same := true
 	for i := 0; i < 256; i++ {
-		vp.Assert(v.dev.ByteAt(c19InodeOff(c19InoDir)+int64(i)) == v.dirImg[i], "the other file's inode is untouched")
+		if v.dev.ByteAt(c19InodeOff(c19InoDir)+int64(i)) != v.dirImg[i] {
+			same = false
+		}
 	}
+	vp.Assert(same, "the other file's inode is untouched")
+	same = true
 	for i := range v.rootData {
-		vp.Assert(v.dev.ByteAt(c19RootBlock*c19BlockSize+int64(i)) == v.rootData[i], "the directory is untouched")
+		if v.dev.ByteAt(c19RootBlock*c19BlockSize+int64(i)) != v.rootData[i] {
+			same = false
+		}
 	}
+	vp.Assert(same, "the directory is untouched")
+	same = true
 	for i := 0; i < 256; i++ {
 		skip := i == 0x7c || i == 0x7d || i == 0x82 || i == 0x83
 		for _, r := range changed {
@@ -113,9 +122,12 @@ func c19OthersUntouched(v *c19Vol, changed [][2]int) {
 			}
 		}
 		if !skip {
-			vp.Assert(v.dev.ByteAt(c19InodeOff(c19InoFile)+int64(i)) == v.fileImg[i], "no other field of the file's inode changes")
+			if v.dev.ByteAt(c19InodeOff(c19InoFile)+int64(i)) != v.fileImg[i] {
+				same = false
+			}
 		}
 	}
+	vp.Assert(same, "no other field of the file's inode changes")
 }
 
 // c19StatFile: Stat("f") on a freshly opened filesystem reports metadata m.
@@ -294,9 +306,13 @@ func VP_C19_ext4_fs_inode_tail() {
 			anyTail = true
 		}
 	}
+	same := true
 	for i := 0x98; i < 0x100; i++ {
-		vp.AssertUnless("KF-C19-4", anyTail, v.dev.ByteAt(o+int64(i)) == keep[i], "i_version_hi / i_projid / in-inode xattr bytes survive a Chown")
+		if v.dev.ByteAt(o+int64(i)) != keep[i] {
+			same = false
+		}
 	}
+	vp.AssertUnless("KF-C19-4", anyTail, same, "i_version_hi / i_projid / in-inode xattr bytes survive a Chown")
 	vp.Cover("tail checked")
 }
 
